@@ -99,6 +99,7 @@ def run(tier):
     nlexeme, nlex = (16, 3) if tier == 'quick' else (32, 3)
     jobs += pipe.jobs_for('vf/ch/pipeline.py', 'rt', nlexeme, nlex, 300 if tier == 'quick' else 1500, why='rt_why')
     jobs.append(chrun.Job(os.path.join(ROOT, 'vf/ch/lexloop.py'), 'passthru', 100 if tier == 'quick' else 300))
+    jobs.append(chrun.Job(os.path.join(ROOT, 'vf/ch/lexloop.py'), 'interleave', 100 if tier == 'quick' else 300))
     res = chrun.run_jobs(jobs)
 
     def mk(res_):
@@ -108,7 +109,7 @@ def run(tier):
             return dict(input=text, observed=ex.get('why'),
                         reproduce=f"cd /repo && /venv/bin/python -c \"import sqlparse; t={text!r}; print(repr(''.join(str(s) for s in sqlparse.parse(t))), repr(t))\"")
         return {}
-    chrun.settle(chk, res, classify=lambda r: {'gt_step': 'group_tokens:step-not-text-preserving', 'passthru': 'lexer-input:str-not-passed-unchanged'}.get(r['func'], 'parse:not-text-preserving'), make_replay=mk)
+    chrun.settle(chk, res, classify=lambda r: {'gt_step': 'group_tokens:step-not-text-preserving', 'passthru': 'lexer-input:str-not-passed-unchanged', 'interleave': 'lexer-loop:state-shared-between-streams'}.get(r['func'], 'parse:not-text-preserving'), make_replay=mk)
     if fc['other_mutations']:
         chk.fail_inconclusive(f'frame condition: grouping.py mutates trees outside group_tokens: {fc["other_mutations"][:4]} -- the inductive step does not cover them; '
                               f'the end-to-end harness found no text change within its bound')
